@@ -457,8 +457,11 @@ func (x *Exec) doReturn(cfg *Config, f *Frame, res []Val) (end bool) {
 				}
 			}
 		}
-		for _, r := range res {
+		for k, r := range res {
 			x.escapeChecks(cfg, r, f.block.Instrs[f.idx].Pos(), 0)
+			if k < x.fn.Signature.Results().Len() {
+				x.escapeScan(cfg, r, x.fn.Signature.Results().At(k).Type(), f.block.Instrs[f.idx].Pos(), 0, map[string]bool{})
+			}
 		}
 		x.exitChecks(cfg, f, res)
 		cfg.frames = nil
@@ -862,5 +865,86 @@ func (x *Exec) escapeChecks(cfg *Config, v Val, pos token.Pos, depth int) {
 	}
 	if what := x.P.boundNeedsLock(clo.Fn); what != "" {
 		x.oblige(cfg, "guarded-escape", "returns the method value "+what+", which must be called with its lock held", False, []string{"C13"}, pos)
+	}
+}
+
+
+// escapeScan: does a value handed to the caller reach, through closures built
+// by this invocation and objects allocated by it, a pointer into memory that a
+// mutex guards (the address of a guarded embedded struct)? Such a pointer is
+// used by the caller after the lock has been released (C13). Bounded depth;
+// only objects and closures created on this path are followed.
+func (x *Exec) escapeScan(cfg *Config, v Val, ty types.Type, pos token.Pos, depth int, seen map[string]bool) {
+	if depth > 6 || v == nil {
+		return
+	}
+	st := cfg.st
+	var t Term
+	switch vv := v.(type) {
+	case *CloV:
+		t = x.cloTerm(st, vv)
+	case TV:
+		t = vv.T
+	case SV:
+		if s, ok := vv.Ty.Underlying().(*types.Struct); ok {
+			for i, fv := range vv.F {
+				if i < s.NumFields() {
+					x.escapeScan(cfg, fv, s.Field(i).Type(), pos, depth+1, seen)
+				}
+			}
+		}
+		return
+	default:
+		return
+	}
+	if t.Sort != SInt || seen[t.S] {
+		return
+	}
+	seen[t.S] = true
+	if _, desc, ok := x.guardedSub(cfg, t); ok && depth > 0 {
+		x.oblige(cfg, "guarded-escape", "a value returned to the caller reaches the address of "+desc+" (through closures / objects built here); it is used after the lock is released", False, []string{"C13"}, pos)
+		return
+	}
+	if clo, ok := st.clos[t.S]; ok {
+		for k, fv := range clo.Fn.FreeVars {
+			if k >= len(clo.Binds) {
+				break
+			}
+			el := derefType(fv.Type())
+			if a, isCell := clo.Binds[k].(AddrV); isCell && a.Kind == aCell && el != nil && !isStructType(el) {
+				arr := x.heapGet(st, a.Arr, SArr(SInt, x.sortOf(el)))
+				x.escapeScan(cfg, TV{T: Select(arr, a.Base)}, el, pos, depth+1, seen)
+			} else {
+				x.escapeScan(cfg, clo.Binds[k], fv.Type(), pos, depth+1, seen)
+			}
+		}
+		return
+	}
+	// objects allocated by this invocation: follow their reference-like fields
+	if !strings.HasPrefix(t.S, "new!") || ty == nil {
+		return
+	}
+	el := derefType(ty)
+	if el == nil || !isStructType(el) {
+		return
+	}
+	x.scanStructFields(cfg, el, t, pos, depth, seen)
+}
+
+func (x *Exec) scanStructFields(cfg *Config, styp types.Type, ref Term, pos token.Pos, depth int, seen map[string]bool) {
+	s := styp.Underlying().(*types.Struct)
+	for i := 0; i < s.NumFields(); i++ {
+		ft := s.Field(i).Type()
+		if isStructType(ft) {
+			x.scanStructFields(cfg, ft, x.subRef(styp, i, ref), pos, depth+1, seen)
+			continue
+		}
+		switch ft.Underlying().(type) {
+		case *types.Pointer, *types.Signature:
+		default:
+			continue
+		}
+		_, arr, _ := x.fieldArr(cfg.st, styp, i)
+		x.escapeScan(cfg, TV{T: Select(arr, ref)}, ft, pos, depth+1, seen)
 	}
 }
